@@ -18,11 +18,13 @@ import vlib
 PKG = "internal/dhcpd"
 FILES = ["zz_verif_common_test.go", "zz_verif_c10_test.go"]
 
-# tier -> (exhaustive cfg, walker options)
+# tier -> passes of direction A (cfg of the exhaustive universe, walker options) and sizes of direction B.
+# order=True: the walker distinguishes states of the server by the order of its lease slice as well.
 TIERS = {
-    "quick": dict(cfg="Dhcp4.mc.cfg", order=False, workers=4, deadline_s=45, tlc_workers=6,
+    "quick": dict(passes=[dict(cfg="Dhcp4.mc.cfg", order=False, workers=4, deadline_s=45, tlc_workers=6)],
                   traceruns=3, tracesteps=400),
-    "thorough": dict(cfg="Dhcp4.big.cfg", order=True, workers=6, deadline_s=420, tlc_workers=8,
+    "thorough": dict(passes=[dict(cfg="Dhcp4.mc.cfg", order=True, workers=6, deadline_s=120, tlc_workers=6),
+                             dict(cfg="Dhcp4.big.cfg", order=False, workers=6, deadline_s=200, tlc_workers=8)],
                      traceruns=12, tracesteps=600),
 }
 
@@ -181,15 +183,25 @@ def describe(rec):
 
 
 # ------------------------------------------------------------- direction A
-def walk(ctx, vectors, univ, opts):
-    vin, vout = ctx.path("c10_graph.ndjson"), ctx.path("c10_walk.ndjson")
-    tmp = scratch(ctx)
-    with open(vin, "w") as fh:
-        fh.write(json.dumps({"univ": univ, "opts": opts}) + "\n")
-        for v in vectors:
-            fh.write(json.dumps(v, separators=(",", ":")) + "\n")
+def tlc_raw(ctx, module, cfg, **kw):
+    """ctx.tlc without vlib's parsing of the emitted lines (the Go harness reads
+    TLC's output file itself; the big universe emits ~200 MB)."""
+    orig = vlib.parse_vectors
+    vlib.parse_vectors = lambda out: []
+    try:
+        r = ctx.tlc(module, cfg, **kw)
+    finally:
+        vlib.parse_vectors = orig
+    r["nvec"] = len(re.findall(r'^<<"@@V", ', r["out"], re.M))
+    r["outfile"] = os.path.join(r["dir"], "tlc.out")
+    return r
+
+
+def walk(ctx, outfile, univ, opts, tag):
+    vout = ctx.path("c10_walk_%s.ndjson" % tag)
     rc, out = ctx.go_test(PKG, FILES, "^TestZZVerifC10Walk$",
-                          env={"VERIF_IN": vin, "VERIF_OUT": vout, "VERIF_TMP": tmp},
+                          env={"VERIF_HDR": json.dumps({"univ": univ, "opts": opts}), "VERIF_IN": outfile,
+                               "VERIF_OUT": vout, "VERIF_TMP": scratch(ctx)},
                           timeout=opts["deadline_s"] + 600, go_timeout="%ds" % (opts["deadline_s"] + 500))
     rows = vlib.read_ndjson(vout)
     summ = [r for r in rows if r.get("kind") == "summary"]
@@ -233,11 +245,10 @@ def run_histories(ctx, recs):
 
 
 def trace(ctx, opts, counts):
-    vin, vout = ctx.path("c10_trace_in.ndjson"), ctx.path("c10_trace.ndjson")
-    with open(vin, "w") as fh:
-        fh.write(json.dumps({"univ": TRACE_UNIV, "opts": opts}) + "\n")
+    vout = ctx.path("c10_trace.ndjson")
     rc, out = ctx.go_test(PKG, FILES, "^TestZZVerifC10Trace$",
-                          env={"VERIF_IN": vin, "VERIF_OUT": vout, "VERIF_TMP": scratch(ctx)}, timeout=900)
+                          env={"VERIF_HDR": json.dumps({"univ": TRACE_UNIV, "opts": opts}), "VERIF_OUT": vout,
+                               "VERIF_TMP": scratch(ctx)}, timeout=900)
     rows = vlib.read_ndjson(vout)
     if rc != 0 or not rows:
         raise vlib.Inconclusive("C10 trace driver did not complete:\n" + out[-3000:])
@@ -301,44 +312,54 @@ def run(ctx):
 
 def run1(ctx):
     T = TIERS[ctx.tier]
-    univ = parse_cfg(T["cfg"])
     ctx.sany("Dhcp4")
     ctx.sany("TraceDhcp4")
-    # Half 1 + emission: all histories over the small universe.
-    mc = ctx.tlc("Dhcp4", T["cfg"], workers=T["tlc_workers"], timeout=900, coverage=True)
-    vectors = mc["vectors"]
-    if len(vectors) != mc["distinct"] or not vectors:
-        raise vlib.Inconclusive("emitted %d state lines for %d distinct states" % (len(vectors), mc["distinct"]))
-    vac = vacuity(mc, vectors)
-    if vac:
-        raise vlib.Inconclusive("vacuous: " + vac)
-    # Direction A.
-    opts = dict(order=T["order"], workers=T["workers"], deadline_s=T["deadline_s"], resetevery=400, maxrepro=3)
-    rows, summ = walk(ctx, vectors, univ, opts)
     counts = {}
-    register(ctx, rows, counts)
-    if summ["steps"] < 1000 or summ["nontrivial"] < 100:
-        raise vlib.Inconclusive("walker did too little: %s" % {k: summ[k] for k in ("steps", "nontrivial")})
+    passes = []
+    flaky = 0
+    for i, P in enumerate(T["passes"]):
+        univ = parse_cfg(P["cfg"])
+        # Half 1 + emission: all histories over the universe, the statement's invariants, one line per state.
+        mc = tlc_raw(ctx, "Dhcp4", P["cfg"], workers=P["tlc_workers"], timeout=900, coverage=True)
+        if mc["nvec"] != mc["distinct"] or not mc["nvec"]:
+            raise vlib.Inconclusive("emitted %d state lines for %d distinct states" % (mc["nvec"], mc["distinct"]))
+        # Direction A.
+        opts = dict(order=P["order"], workers=P["workers"], deadline_s=P["deadline_s"], resetevery=400, maxrepro=3)
+        rows, summ = walk(ctx, mc["outfile"], univ, opts, str(i))
+        vac = vacuity(mc, summ)
+        if vac:
+            raise vlib.Inconclusive("vacuous: " + vac)
+        register(ctx, rows, counts)
+        if summ["steps"] < 1000 or summ["nontrivial"] < 100:
+            raise vlib.Inconclusive("walker did too little: %s" % {k: summ[k] for k in ("steps", "nontrivial")})
+        flaky += summ["flaky"]
+        passes.append(dict(cfg=P["cfg"], universe=univ, tlc_states=mc["distinct"], tlc_transitions=mc["generated"],
+                           walker={k: summ[k] for k in summ if k not in ("kind", "samples")},
+                           samples=(summ.get("samples") or [])[:2]))
+        mc["out"] = None
     # Direction B.
     trows, trecs, tflaky = trace(ctx, dict(traceruns=T["traceruns"], tracesteps=T["tracesteps"]), counts)
-    flaky = summ["flaky"] + tflaky
+    flaky += tflaky
     if flaky > 5:
         raise vlib.Inconclusive("%d disagreements did not reproduce in isolation" % flaky)
+    steps = sum(p["walker"]["steps"] for p in passes)
     cov = {
-        "traces_validated_against_impl": summ["steps"] + len(trows),
-        "evaluations": summ["steps"] + len(trows), "distinct_nontrivial": summ["nontrivial"],
+        "traces_validated_against_impl": steps + len(trows),
+        "evaluations": steps + len(trows),
+        "distinct_nontrivial": sum(p["walker"]["nontrivial"] for p in passes),
         "rule": "one evaluation = one action executed on the real server and judged by the spec's outcome set "
                 "(direction A: looked up in TLC's emission; direction B: decided by TLC on the recorded line); "
                 "non-trivial = distinct (abstract state, action instance) pairs whose execution changed the table",
-        "universe": univ, "trace_universe": TRACE_UNIV,
-        "walker": {k: summ[k] for k in summ if k not in ("kind", "samples")},
-        "code_reachable_states": summ["abstract_states"], "spec_states": summ["spec_states"],
+        "passes": [{k: p[k] for k in p if k != "samples"} for p in passes], "trace_universe": TRACE_UNIV,
+        "code_reachable_states": [p["walker"]["abstract_states"] for p in passes],
+        "spec_states": [p["walker"]["spec_states"] for p in passes],
         "trace_lines": len(trows), "trace_lines_rejected": len(trecs), "trace_runs": T["traceruns"],
         "disagreements_by_key": counts,
-        "truncated_by_known_finding": summ["truncated"] + sum(1 for t in trows[1:] if t["reset"] and t["step"] > 0),
+        "truncated_by_known_finding": sum(p["walker"]["truncated"] for p in passes)
+        + sum(1 for t in trows[1:] if t["reset"] and t["step"] > 0),
         "not_reproduced": flaky,
-        "exhaustive": bool(summ["closed"]),
-        "samples": (summ.get("samples") or [])[:3] + [{"trace_line": trows[len(trows) // 2]}],
+        "exhaustive": all(bool(p["walker"]["closed"]) for p in passes),
+        "samples": [x for p in passes for x in p["samples"]][:3] + [{"trace_line": trows[len(trows) // 2]}],
     }
     return ctx.finish("model_checking", cov, assumptions=[
         "TLC; conc()/abs() of zz_verif_c10_test.go (address, MAC and host-name tables; acknowledged = Expiry after now)",
@@ -349,25 +370,23 @@ def run1(ctx):
         "(states are discovered by the walk itself; states only reachable through a reported disagreement are not entered)"])
 
 
-def vacuity(mc, vectors):
-    """Every action of the spec must have been taken and must have had an effect."""
-    seen = {}
-    for v in vectors:
-        for e in v["e"]:
-            changing = any(not o[0] for o in e[5])
-            seen[e[0]] = seen.get(e[0], False) or changing
-    need = ["Discover", "Request", "Decline", "Release", "Expire", "AddStatic", "UpdateStatic", "RemoveStatic"]
-    missing = [a for a in need if not seen.get(a)]
+def vacuity(mc, summ):
+    """Every action of the spec must have been taken by TLC and must be able to change the table."""
+    ch = summ.get("spec_changing") or {}
+    need = ["Discover", "Request", "Decline", "Release", "Expire", "AddStatic", "UpdateStatic", "RemoveStatic", "Restart"]
+    missing = [a for a in need if not ch.get(a)]
     if missing:
-        return "actions never change the table: %s" % missing
-    if "Restart" not in seen:
-        return "Restart never emitted"
-    zero = [z for z in mc.get("zero_cov", []) if "Dhcp4" in z]
-    out = mc["out"]
-    acts = re.findall(r"^<(\w+) line \d+, col \d+ to line \d+, col \d+ of module Dhcp4>: (\d+):(\d+)", out, re.M)
-    never = [a for a, d, g in acts if int(g) == 0 and a not in ("Init",)]
+        return "actions that never change the table in the emission: %s" % missing
+    acts = re.findall(r"^<(\w+) line \d+, col \d+ to line \d+, col \d+ of module Dhcp4>: (\d+):(\d+)", mc["out"], re.M)
+    names = {a for a, d, g in acts}
+    never = [a for a, d, g in acts if int(g) == 0 and a != "Init"]
     if never:
-        return "actions never taken according to TLC coverage: %s" % never
+        return "actions never taken according to TLC's coverage: %s" % never
+    if not names:
+        return "no action coverage in TLC's output"
+    zero = [z for z in (mc.get("zero_cov") or []) if "module Dhcp4" in z]
+    if zero:
+        return "expressions of Dhcp4.tla never evaluated: %s" % zero[:5]
     return None
 
 
